@@ -75,7 +75,7 @@ impl Property for C09 {
     }
     fn budget(&self, tier: Tier) -> Budget {
         match tier {
-            Tier::Quick => Budget { cases: 4000, shards: 16, min_len: 24, max_len: 300 },
+            Tier::Quick => Budget { cases: 12_000, shards: 16, min_len: 24, max_len: 300 },
             Tier::Thorough => Budget { cases: 100_000, shards: 16, min_len: 24, max_len: 300 },
         }
     }
